@@ -32,9 +32,11 @@ def cfgOf0 (mode org alloc : String) : Option Cfg := do
   | _ => none
 
 def cfgOf (mode org alloc mc dg : String) : Option Cfg :=
-  (cfgOf0 mode org alloc).bind fun c => match mc, dg with
-    | "0", "0" => some { c with elemMoveCompiles := false } | "1", "0" => some { c with elemMoveCompiles := true }
-    | "0", "1" => some { c with elemMoveCompiles := false, keepDims := true } | "1", "1" => some { c with elemMoveCompiles := true, keepDims := true }
+  (cfgOf0 mode org alloc).bind fun c =>
+    match mc.toNat?, dg.toNat? with
+    | some m, some d =>
+      -- dg: bit 0 = allocate_ keeps the dimensions of a degenerate image; bit 1 = move_assign takes over the dimensions of a source without storage
+      if m ≤ 1 ∧ d ≤ 3 then some { c with elemMoveCompiles := m == 1, keepDims := d % 2 == 1, moveKeepsDims := d / 2 == 1 } else none
     | _, _ => none
 
 def nats (ws : List String) : Option (List Nat) := ws.mapM String.toNat?
